@@ -128,6 +128,31 @@ def correspond(ctx, scale):
         if first_mode == 'frozen':
             kwargs['freeze_codebook'] = True
         import contextlib
+        if ci % 4 == 3:
+            # a first call that RAISES (an all-padding batch gives k-means nothing to sample from; an input of the wrong width) must leave the
+            # module untouched: the next, valid call is then the initialising one ("initialised exactly once, from the first batch")
+            st0 = {k: v.clone() for k, v in vq.state_dict().items()}
+            for bad_kind in ('all-padding', 'wrong-width'):
+                try:
+                    if bad_kind == 'all-padding':
+                        vq(x.clone(), mask=torch.zeros(b, nn_, dtype=torch.bool))
+                    else:
+                        vq(torch.randn(b, nn_, d * heads + 1))
+                    raised = False
+                except Exception:
+                    raised = True
+                dist['raising_first_calls'] = dist.get('raising_first_calls', 0) + int(raised)
+                if raised:
+                    st1 = vq.state_dict()
+                    changed = [k for k in st0 if not torch.equal(st0[k], st1[k])]
+                    if changed:
+                        failures.append({'key': f'vq:failed-first-call-changed-state:{bad_kind}', 'what': f'VectorQuantize({kw}): a first call that raised ({bad_kind}) changed {changed[:3]}',
+                                         'case': dict(kw=kw, kind=bad_kind)})
+                else:
+                    break       # the call went through: it WAS the first call; the invariants below would be about the wrong batch
+            if not raised:
+                continue
+            seeds_log.clear()
         autocast_first = (ci % 6 == 4) and first_mode != 'train'       # (a training first call under CPU autocast raises in the unchanged library: lerp dtype)
         try:
             # the initialisation arithmetic must not depend on the ambient autocast mode of the first call
